@@ -329,3 +329,80 @@ def long_run_recurrence(ck, quick):
         if bad:
             ck.violation(f"minimize on {n} lines, test = 'original with a growing hole behind line {p}' ({run.tests} tests): {bad}",
                          {"lines": n, "prefix": p + 1, "tests": run.tests})
+
+
+def _regex_samples(pattern, limit=4):
+    """a few strings matching the regular expression `pattern` (str), built from its parse tree: literals as they
+    are, classes by a member, repeats once or twice, each alternative"""
+    try:
+        import re._parser as sre_parse          # Python >= 3.11
+    except ImportError:                         # pragma: no cover
+        import sre_parse
+    try:
+        tree = sre_parse.parse(pattern)
+    except Exception:  # pylint: disable=broad-except
+        return []
+
+    def member(items):
+        for op, av in items:
+            name = str(op)
+            if name == "LITERAL":
+                return chr(av)
+            if name == "RANGE":
+                return chr(av[0])
+            if name == "CATEGORY":
+                cat = str(av)
+                return {"CATEGORY_DIGIT": "7", "CATEGORY_SPACE": " ", "CATEGORY_WORD": "w"}.get(cat, "x")
+        return "x"
+
+    def gen(seq, pick):
+        out = [""]
+        for op, av in seq:
+            name = str(op)
+            if name == "LITERAL":
+                piece = [chr(av)]
+            elif name == "NOT_LITERAL":
+                piece = ["x" if chr(av) != "x" else "y"]
+            elif name == "ANY":
+                piece = ["x"]
+            elif name == "IN":
+                neg = av and str(av[0][0]) == "NEGATE"
+                piece = ["~" if neg else member(av)]
+            elif name in ("MAX_REPEAT", "MIN_REPEAT"):
+                lo, hi, sub = av
+                body = gen(sub, pick)
+                n = max(lo, 1) if hi else 0
+                piece = [b * n for b in body[:2]] + ([b * (n + 1) for b in body[:1]] if hi and hi > n else [])
+            elif name == "SUBPATTERN":
+                piece = gen(av[-1], pick)
+            elif name == "BRANCH":
+                piece = [x for alt in av[1] for x in gen(alt, pick)[:2]]
+            elif name == "CATEGORY":
+                piece = [member([(op, av)])]
+            else:                                # AT, ASSERT, GROUPREF ...: contribute nothing
+                piece = [""]
+            out = [a + b for a in out[:limit] for b in (piece[:limit] or [""])][: limit * 2]
+        return out
+    try:
+        return [s for s in dict.fromkeys(gen(tree, 0)) if s][:limit]
+    except Exception:  # pylint: disable=broad-except
+        return []
+
+
+def mined_texts(maxlen=80):
+    """byte strings built from the text constants a changed tree introduced: each as it is and, where it reads as a
+    regular expression, a few strings matching it.  Empty on the unchanged tree.  They join the fragment alphabets of
+    the splitter checks and the outputs of the child processes: a special-cased text is searched for where it matters"""
+    out = []
+    for t in mined()[1]:
+        cands = [t]
+        if any(ch in t for ch in "\\[(.*+?^$|"):
+            cands += _regex_samples(t)
+        for c in cands:
+            try:
+                b = c.encode("latin-1")
+            except UnicodeEncodeError:
+                b = c.encode("utf-8")
+            if 0 < len(b) <= maxlen and b not in out:
+                out.append(b)
+    return out
